@@ -227,7 +227,7 @@ def check_engine(ctx: Ctx, inp) -> None:
 
 SUBS = [
     Sub("explicit", fn=check_explicit, strategy=explicit_case, quick=(16, 150), thorough=(16, 5000), timeout_quick=600, timeout_thorough=3400),
-    Sub("engine", fn=check_engine, strategy=engine_case, quick=(8, 8), thorough=(16, 200), shrink_quick=False, timeout_quick=600, timeout_thorough=3400),
+    Sub("engine", collect=True, fn=check_engine, strategy=engine_case, quick=(8, 8), thorough=(16, 200), shrink_quick=False, timeout_quick=600, timeout_thorough=3400),
 ]
 FLOOR = {"explicit": 1500, "engine:runs-with-reported-failures": 5}
 
